@@ -112,6 +112,62 @@ def extract(feature_set="default", repo=None, want_cmdline=False):
     return facts, info
 
 
+_CMDLINE = {}
+
+
+def rustc_cmdline(feature_set="default"):
+    """The exact rustc command line cargo uses for the crdts lib (captured from `cargo check -v`)."""
+    if feature_set not in _CMDLINE:
+        facts, info = extract(feature_set, want_cmdline=True)
+        if not info.get("rustc_cmdline"):
+            raise InfraError("could not capture the rustc command line from cargo -v")
+        _CMDLINE[feature_set] = info["rustc_cmdline"]
+    return _CMDLINE[feature_set]
+
+
+def extract_variant(src_root, cmdline, feature_set="default"):
+    """Analyse a variant source tree (directory containing src/lib.rs) without cargo: re-issue the captured rustc
+    command through the driver with only the source root and the output directory changed.  Dependencies are read
+    from the shared target directory (read-only); nothing is executed."""
+    import shlex
+    argv = shlex.split(cmdline)
+    # argv[0] = driver (wrapper), argv[1] = real rustc
+    out_dir = os.path.join(src_root, "out")
+    os.makedirs(out_dir, exist_ok=True)
+    new = []
+    skip = False
+    for i, a in enumerate(argv):
+        if skip:
+            skip = False
+            continue
+        if a == "src/lib.rs":
+            new.append(os.path.join(src_root, "src", "lib.rs"))
+        elif a == "--out-dir":
+            new += ["--out-dir", out_dir]
+            skip = True
+        elif a == "-C" and i + 1 < len(argv) and argv[i + 1].startswith("incremental="):
+            skip = True
+        elif a.startswith("--error-format") or a.startswith("--json"):
+            continue
+        else:
+            new.append(a)
+    nonce = uuid.uuid4().hex
+    out = os.path.join(src_root, "facts.json")
+    env = base_env()
+    env["CRDT_FACTS_OUT"] = out
+    env["CRDT_FACTS_NONCE"] = nonce
+    r = subprocess.run(new, env=env, cwd=src_root, capture_output=True, text=True)
+    if r.returncode != 0:
+        raise InfraError("variant does not compile:\n" + r.stderr[-3000:])
+    if not os.path.exists(out):
+        raise InfraError("variant fact file missing")
+    with open(out) as f:
+        facts = json.load(f)
+    if facts.get("nonce") != nonce:
+        raise InfraError("stale variant fact file")
+    return facts
+
+
 if __name__ == "__main__":
     fs = sys.argv[1] if len(sys.argv) > 1 else "default"
     facts, info = extract(fs)
